@@ -422,6 +422,16 @@ func cmdRun(args []string) int {
 		exit = 1
 	}
 
+	cross := ex.crossCheck()
+	if d, ok := cross["disagreements"].(map[string]int); ok {
+		n := 0
+		for _, v := range d {
+			n += v
+		}
+		if n > 0 {
+			fmt.Printf("INCONCLUSIVE property=%s reason=solver disagreement on %d sampled obligations (engine error, see evidence)\n", *prop, n)
+		}
+	}
 	inconcl := ex.unsupportedN + ex.budgetN
 	exhaustive := inconcl == 0 && !ex.stop && ex.portUnknown == 0
 	missing := []string{}
@@ -477,6 +487,7 @@ func cmdRun(args []string) int {
 		"queries":              map[string]int{"total": ex.queries, "sat": ex.qsat, "unsat": ex.qunsat, "unknown_by_one_solver": ex.qunknown, "undecided_by_portfolio": ex.portUnknown, "errors": ex.qerr},
 		"solver_time_s":        ex.solverTime.Seconds(),
 		"solver_model_mismatch": ex.modelMismatch,
+		"solver_crosscheck":    cross,
 		"load_and_ssa_build_s": loadT.Seconds(),
 		"instructions":         ex.steps,
 		"scheduling_points":    ex.schedPoints,
